@@ -41,6 +41,13 @@ def cases(seed, tier):
                     'n_sample': int(rng.choice([1, 2, 17])) if small else (4000 if tier == 'quick' else int(rng.choice([4000, 12000]))),
                     'seed_kind': ['int', 'RandomState', 'none'][r % 3], 'seed': int(rng.integers(1 << 31)),
                     'recovery': False})
+    # columns of large magnitude / tiny scale (timestamps, lengths in metres) under closed-form, kernel and
+    # selected marginals: not constant columns, and quantile solvers must not run out of absolute tolerance
+    for r in range(8 if tier == 'quick' else 60):
+        t = mv.random_table_spec(rng, tier, d=2, n=200, allow_constant=False, marg_pool=['normal', 'gamma', 'uniform'])
+        t['extras'] = [['timestamp'], ['tiny_values'], ['timestamp', 'tiny_values']][r % 3]
+        out.append({'table': t, 'config': ['gaussian', 'kde', 'default', 'kde'][r % 4], 'container': 'df',
+                    'n_sample': 1500, 'seed_kind': 'int', 'seed': int(rng.integers(1 << 31)), 'recovery': False})
     # well-specified configurations for the recovery clause
     for r in range(12 if tier == 'quick' else 120):
         pool = ['normal', 'uniform', 'beta', 'gamma', 'student_t']
@@ -64,7 +71,7 @@ def run_case(spec, ctx):
     rng = rng_for(spec['seed'], 'cfg')
     df, info = mv.make_table(t)
     where = {'config': spec['config'], 'corr': t['corr'], 'n_train': t['n'], 'd': df.shape[1],
-             'marginals': t['marginals'], 'n_sample': spec['n_sample'], 'container': spec['container']}
+             'marginals': t['marginals'], 'extras': t.get('extras', []), 'n_sample': spec['n_sample'], 'container': spec['container']}
     rs = {'int': int(rng.integers(1 << 30)), 'RandomState': np.random.RandomState(int(rng.integers(1 << 30))),
           'none': None}[spec['seed_kind']]
     if spec['config'] == 'true_families':
